@@ -19,4 +19,6 @@ instance : TotalOnKeys guard_queue_check where
   negTrans a b c := by simp only [bfalse_of_iff guard_queue_check_iff]; unfold guardLt; omega
   total a b := by simp only [guard_queue_check_iff]; unfold guardLt; omega
 
+instance : IgnoresHidx guard_queue_check := ignoresHidx_of_iff guard_queue_check_iff (fun _ _ _ _ => Iff.rfl)
+
 end CimbaModel.HashHeap.Orders
